@@ -285,13 +285,34 @@ Definition remove_columns (cols : list Z) (m : meta) : res meta :=
 (* _removeTableRecords: the tables and the summary tables based on them; their sections and fields; every view
    left without a section; their column records and the table records.  Columns of other tables whose type
    refers to a removed table are converted by ModifyColumn first: outside the modelled fragment. *)
-Definition remove_tables (trefs : list Z) (m : meta) : res meta :=
-  if negb (all_in trefs (tids m)) then Fail
+(* _convert_reference_col_for_deleted_table on the columns of surviving tables whose type refers to a removed
+   table (group-by columns are skipped: they follow their source column): ModifyColumn to a plain type (through
+   CopyFromColumn when the column has a visible and a display column, which also takes over the rules of the
+   display column, i.e. none).  The type change clears displayCol/visibleCol of the column, of the group-by
+   columns based on it, and of the fields that show any of these. *)
+Definition convert_refs (tabs : list Z) (m : meta) : meta :=
+  let conv := map c_id (filter (fun c => mem (c_reft c) tabs && negb (mem (c_parent c) tabs) && (c_src c =? 0))
+                               (m_columns m)) in
+  let hits := map c_id (filter (fun c => mem (c_id c) conv || mem (c_src c) conv) (m_columns m)) in
+  mkM (m_tables m)
+      (map (fun c => if mem (c_id c) conv
+                     then mkC (c_id c) (c_parent c) (c_kind c) 0 0 (c_src c)
+                              (if negb (c_visible c =? 0) && negb (c_display c =? 0) then [] else c_rules c) 0
+                     else if mem (c_src c) conv
+                     then mkC (c_id c) (c_parent c) (c_kind c) 0 0 (c_src c) (c_rules c) 0
+                     else c) (m_columns m))
+      (m_views m) (m_sections m)
+      (map (fun f => if mem (f_col f) hits
+                     then mkF (f_id f) (f_section f) (f_col f) 0 0 (f_rules f) (f_wopt f) else f) (m_fields m))
+      (m_tabbar m) (m_pages m) (m_schema m).
+
+Definition remove_tables (trefs : list Z) (m0 : meta) : res meta :=
+  if negb (all_in trefs (tids m0)) then Fail
   else
-    let tabs := trefs ++ map t_id (filter (fun t => mem (t_src t) trefs) (m_tables m)) in
+    let tabs := trefs ++ map t_id (filter (fun t => mem (t_src t) trefs) (m_tables m0)) in
     if negb (nodupb tabs) then Unmodelled
-    else if existsb (fun c => mem (c_reft c) tabs && negb (mem (c_parent c) tabs)) (m_columns m) then Unmodelled
     else
+      let m := convert_refs tabs m0 in
       let secs := map s_id (filter (fun s => mem (s_table s) tabs) (m_sections m)) in
       let m1 := remove_sections_raw secs m in
       let vs := filter (fun v => negb (existsb (fun s => s_view s =? v) (m_sections m1))) (m_views m1) in
@@ -480,6 +501,19 @@ Definition set_display (t fld col : Z) (set : bool) (reuse : Z) (m : meta) : res
         end)
     end
   else Ok m.
+
+(* UpdateRecord _grist_Tables_column c {visibleCol: v}, v an existing column (the "show column" of a reference
+   column; the client sends it together with SetDisplayFormula).  Formula columns of summary tables copy the
+   update to their sister columns: outside the fragment. *)
+Definition set_visible (col v : Z) (m : meta) : res meta :=
+  match find_column m col with
+  | None => Fail
+  | Some c =>
+    if (v =? 0) || negb (mem v (cids m)) then Unmodelled
+    else if (c_src c =? 0) && is_summary_table m (c_parent c) then Unmodelled
+    else Ok (upd_column col (fun c => mkC (c_id c) (c_parent c) (c_kind c) (c_display c) v (c_src c) (c_rules c)
+                                          (c_reft c)) m)
+  end.
 
 (* doAddRule: a new helper column in table t, appended to the rules of the field / column / raw section *)
 Definition add_rule (t fld col : Z) (m : meta) : res meta :=
@@ -706,6 +740,14 @@ Fixpoint auto_fix (fuel : nat) (m : meta) : res meta :=
        | S k => bind (auto_round m) (auto_fix k)
        end.
 
+(* how many times apply_auto_removes removes something (the engine loops while it does) *)
+Fixpoint auto_rounds (fuel : nat) (m : meta) : nat :=
+  if isnil (auto_cols m) && isnil (auto_tabs m) then O
+  else match fuel with
+       | O => O
+       | S k => match auto_round m with Ok m1 => S (auto_rounds k m1) | _ => O end
+       end.
+
 (* ---------------------------------------------------------------------------------------------- *)
 (* user actions of the modelled fragment *)
 
@@ -731,6 +773,7 @@ Inductive op :=
 | OCreateSummary (src v : Z) (gb : list Z) (name : Z) (gbkinds fkinds : list Z)  (* CreateViewSection, group-by *)
 | ORegroup (r : regroup)                                 (* UpdateSummaryViewSection *)
 | ORemoveColumnsG (cols : list Z) (rs : list regroup)    (* RemoveColumn of group-by source columns *)
+| OSetVisible (col v : Z)                                (* UpdateRecord _grist_Tables_column {visibleCol} *)
 | ONoMeta                                               (* an action that touches none of the modelled cells *)
 | OUnmodelled.                                           (* any other action *)
 
@@ -757,6 +800,7 @@ Definition step (o : op) (m : meta) : res meta :=
   | OCreateSummary src v gb name gbkinds fkinds => create_summary src v gb name gbkinds fkinds m
   | ORegroup r => apply_regroup r m
   | ORemoveColumnsG cols rs => remove_columns_regroup cols rs m
+  | OSetVisible col v => set_visible col v m
   | ONoMeta => Ok m
   | OUnmodelled => Unmodelled
   end.
